@@ -1,6 +1,7 @@
 //! hcobs_mc: bounded-exhaustive exploration of the real HCOBS Encoder/Decoder
 //! (C01 round trip, C02 output, C07 wire format, C09 streaming prefix + lag;
 //! C05 / C10 clauses for the codecs).
+mod closure;
 mod codec;
 mod longrun;
 mod prod;
@@ -18,18 +19,23 @@ fn run(ctx: &Ctx) -> Report {
             tiny::tier1(ctx, &mut rep, Focus::RoundTrip, &mut unit);
             prod::boundary_family(ctx, &mut rep, Focus::RoundTrip, &mut unit);
             prod::alignment_family(ctx, &mut rep, &mut unit);
+            closure::encoder_closure(ctx, &mut rep, &mut unit);
+            closure::decoder_closure(ctx, &mut rep, &mut unit);
         }
         "C02" => {
             tiny::tier1(ctx, &mut rep, Focus::Output, &mut unit);
             prod::boundary_family(ctx, &mut rep, Focus::Output, &mut unit);
             prod::alignment_family(ctx, &mut rep, &mut unit);
             prod::find_stuff_exhaustive(ctx, &mut rep, &mut unit);
+            closure::encoder_closure(ctx, &mut rep, &mut unit);
         }
         "C07" => {
             tiny::tier1(ctx, &mut rep, Focus::Format, &mut unit);
             tiny::decoder_accept_set(ctx, &mut rep, &mut unit);
             prod::boundary_family(ctx, &mut rep, Focus::Format, &mut unit);
             prod::decoder_header_space(ctx, &mut rep, &mut unit);
+            closure::encoder_closure(ctx, &mut rep, &mut unit);
+            closure::decoder_closure(ctx, &mut rep, &mut unit);
         }
         "C09" => {
             tiny::tier1(ctx, &mut rep, Focus::Drain, &mut unit);
@@ -86,7 +92,7 @@ fn rule(ctx: &Ctx) -> String {
 fn main() {
     main_entry(Engine {
         name: "hcobs_mc",
-        level: |p| if p == "C09" || p == "C05" || p == "C10" { "model_checking" } else { "exploration" },
+        level: |_| "model_checking",
         rule,
         run,
         replay,
